@@ -21,7 +21,7 @@ from ..fold import try_fold
 from ..model import AnalysisError, Func, Repo, dotted, is_name, norm, walk_shallow
 from ..report import Ledger
 from ..sym import eq0, B, Const, Lin, Range, State, Sym, SymExec, Tup, as_lin, b_not, cmp_lin, opaque, NotNumeric
-from ..util import kw
+from ..util import end_pos, pos, kw
 from .shared import chunker_siblings, gap_iter_exact
 
 PROP = "C03"
@@ -225,7 +225,7 @@ def _wrap(repo, L, fs, ws: Func):
     st.env[cnt] = Lin.atom("W")
     LLn = None
     for n in walk_shallow(ws.node):
-        if isinstance(n, ast.Assign) and is_name(n.targets[0], cnt) and n.lineno < wl.lineno:
+        if isinstance(n, ast.Assign) and is_name(n.targets[0], cnt) and pos(n) < pos(wl):
             LLn = norm(n.value)
     if LLn is None:
         raise AnalysisError("initial value of the line counter not found")
@@ -278,7 +278,7 @@ def _wrap(repo, L, fs, ws: Func):
         ok, why = False, why or f"loop body has cases {sorted(kinds)}, expected drained / line-full / partial"
     L.check(ok, "R3", ws.short + ":invariant", "one iteration preserves col + want == line_length; newline exactly when want reaches 0", why, ws.loc(wl))
     # final newline
-    tail = [n for n in ws.node.body if isinstance(n, ast.If) and n.lineno > wl.end_lineno]
+    tail = [n for n in ws.node.body if isinstance(n, ast.If) and pos(n) > end_pos(wl)]
     okf, whyf = False, "no final test after the rows loop"
     if len(tail) == 1:
         t = tail[0].test
